@@ -14,11 +14,14 @@ import resolvegen
 import resolvelib as rl
 
 ID = 'C05'
-LEAN_MODULES = ['Yaql.Props.C05']
+LEAN_MODULES = ['Yaql.Props.C05', 'Yaql.Props.C05Hist']
 P = 'Yaql.Props.C05.'
 REQUIRED_THEOREMS = [P + n for n in (
     'resolve_eq_spec', 'unknown_iff', 'first_layer_wins', 'most_specific', 'no_matching_iff', 'kind_filter',
-    'constants_prechecked', 'hidden_transparent', 'skipped_needs_default', 'star_absorbs')]
+    'constants_prechecked', 'hidden_transparent', 'skipped_needs_default', 'star_absorbs')] + [
+    'Yaql.Props.C05Hist.' + n for n in (
+        'collectAtP_refines', 'resolveAt_eq_layers', 'resolveIn_eq', 'resolveIn_eq_spec', 'resolve_history_independent',
+        'register_elsewhere_invisible', 'delete_elsewhere_invisible', 'family_plain')]
 TRUSTED = ['python dict/set semantics modelled as association lists',
            'resolvelib.enc_fd / enc_arg: the encoding of real FunctionDefinition and expression objects for the model',
            'resolvelib.spec_resolve: transcription of the written rules']
